@@ -229,6 +229,7 @@ func workerWrites(c *Ctx) {
 				"with a proxy backend the nil return is reached only after all queued checks finished", "a nil return with a proxy configured does not wait for the workers (results may be written after the caller read the slice)", x.Trace()...)
 		},
 	})
+	base.InlineOwnHelpers()
 	x := NewExec(c.P.FlowOf(fi), base)
 	x.Run(newSt())
 	R.Check(nret > 0, "R07f", c.Cfg+"findMissingCasBlobsInternal:proxy-returns", "", "nil returns with a proxy were found", "none found")
